@@ -144,11 +144,21 @@ func (d *Data) MergeLabels(v dvid.VersionID, op labels.MergeOp, info dvid.ModInf
 	}
 
 	// Write the final merged index and also record surface_mutid since surface changed.
-	if err = targetIdx.Add(mergeIdx, mutInfo); err != nil {
-		return
+	// The target's stored index is re-read and updated under its shard lock, so that a
+	// concurrent merge into (or cleave of) the same body is not overwritten.
+	shard := op.Target % numIndexShards
+	indexMu[shard].Lock()
+	if targetIdx, err = getCachedLabelIndex(d, v, op.Target); err == nil {
+		if targetIdx == nil {
+			err = fmt.Errorf("can't merge into a non-existent label %d", op.Target)
+		} else if err = targetIdx.Add(mergeIdx, mutInfo); err == nil {
+			dvid.Infof("putting targetIdx with user %s\n", targetIdx.LastModUser)
+			targetIdx.Label = op.Target
+			err = putCachedLabelIndex(d, v, targetIdx)
+		}
 	}
-	dvid.Infof("putting targetIdx with user %s\n", targetIdx.LastModUser)
-	if err = PutLabelIndex(d, v, op.Target, targetIdx); err != nil {
+	indexMu[shard].Unlock()
+	if err != nil {
 		return
 	}
 	for merged := range delta.Merged {
